@@ -147,7 +147,7 @@ def handle (line : String) : String :=
     match param? size, optParam? count, optNat? fill, natList? xs with
     | some size, some count, some fill, some xs =>
       match chunkedK (SrcKind.ofName kind) size count fill xs with
-      | .ok (ck, l) => "ok " ++ ck.name ++ " " ++ showLL l
+      | .ok (ck, l) => "ok " ++ (if ck = .list then "seq" else ck.name) ++ " " ++ showLL l
       | .error e => showErr e
     | _, _, _, _ => "bad-op"
   | ["windowed", size, fill, xs] =>
